@@ -24,6 +24,7 @@ mod leg_c03;
 mod leg_c04;
 mod leg_c05;
 mod leg_c15;
+mod leg_c15d;
 mod leg_c16;
 mod leg_c17;
 mod leg_c18;
@@ -44,6 +45,7 @@ fn main() {
         "c14-unit" => leg_c14::run_unit(rest),
         "c14-e2e" => leg_c14::run_e2e(rest),
         "c15-e2e" => leg_c15::run(rest),
+        "c15-disasm" => leg_c15d::run(rest),
         "c16-marg" => leg_c16::run_marg(rest),
         "c16-e2e" => leg_c16::run_e2e(rest),
         "c16-e2e-worker" => leg_c16::run_worker(rest),
